@@ -55,6 +55,8 @@ thread_local! {
     /// Called at the user-callback points of the cache (hashing a key, weighing an entry): the
     /// `inject` component uses it to let another logical thread take a map step there.
     pub static INJECT_HOOK: std::cell::Cell<Option<fn()>> = const { std::cell::Cell::new(None) };
+    /// The key being hashed when `INJECT_HOOK` is called from `Hash for VKey`.
+    pub static CUR_KEY: std::cell::Cell<u64> = const { std::cell::Cell::new(0) };
 }
 
 #[inline]
@@ -66,6 +68,7 @@ pub fn inject_point() {
 
 impl Hash for VKey {
     fn hash<H: Hasher>(&self, state: &mut H) {
+        CUR_KEY.with(|c| c.set(self.0));
         inject_point();
         state.write_u64(self.0)
     }
